@@ -31,7 +31,7 @@ Res(cs, info) == [err |-> "", res |-> cs, info |-> info, dead |-> FALSE]
 None == Res(<<>>, FALSE)
 NoneInfo == Res(<<>>, TRUE)
 YPErr == [err |-> "yperr", res |-> <<>>, info |-> FALSE, dead |-> FALSE]
-Cat(a, b) == IF a.err # "" THEN a ELSE IF b.err # "" THEN b
+Cat(a, b) == IF a.err # "" THEN a ELSE IF b.err # "" THEN [b EXCEPT !.info = @ \/ a.info]     \* an error met after an open corner inherits its mark
              ELSE [err |-> "", res |-> a.res \o b.res, info |-> a.info \/ b.info, dead |-> a.dead \/ b.dead]
 WithInfo(r) == [r EXCEPT !.info = TRUE]
 
@@ -435,7 +435,7 @@ SelFrom(d, c, segs, i) ==
        IF st.err # "" THEN st
        ELSE IF Len(st.res) = 0 THEN [st EXCEPT !.dead = TRUE]
        ELSE LET rest == CatSel(d, st.res, segs, i + 1) IN
-            IF rest.err # "" THEN rest ELSE [rest EXCEPT !.info = @ \/ st.info, !.dead = @ \/ st.dead]
+            IF rest.err # "" THEN [rest EXCEPT !.info = @ \/ st.info] ELSE [rest EXCEPT !.info = @ \/ st.info, !.dead = @ \/ st.dead]
 
 \* A null document answers nothing (processor.py:72-73, 127-131).
 Sel(d, segs) ==
